@@ -136,7 +136,7 @@ def nontrivial(result):
 def validate_chunk(ctx, lines, n):
     path = ctx.path("trace-%03d.ndjson" % n)
     lib.write_ndjson(path, lines)
-    r = ctx.tlc("fed", "Trace_C01", "Trace_C01.cfg", workers=1, env={"TRACE": path, "JAVA_TOOL_OPTIONS": "-XX:+UseSerialGC"},
+    r = ctx.tlc("fed", "Trace_C01", "Trace_C01.cfg", workers=1, env={"TRACE": path, "JAVA_TOOL_OPTIONS": "-XX:ParallelGCThreads=2"},
                 timeout=2400, deadlock=False, count=False, tag="trace-validation-%d" % n, heap="3g")
     bad = []
     stuck = None
